@@ -89,7 +89,10 @@ fn fam_errors(_t: Tier) -> BoxedStrategy<Case> {
                     _ => XEl::new("reuse").a("href", format!("#undefined{i}")),
                 });
             }
-            Case { input: gen::svg_root(kids).to_xml(), cfg, fam: "multi-error".into() }
+            // half of the documents put all failing elements on one source line
+            let root = gen::svg_root(kids);
+            let input = if els.len() % 2 == 0 { root.to_xml() } else { root.to_xml_compact() };
+            Case { input, cfg, fam: "multi-error".into() }
         })
         .boxed()
 }
